@@ -172,7 +172,7 @@ func main() {
 	ttls := map[string]map[uint64]bool{"New": {}, "Update": {}}
 	overrides := []string{"none", "port", "phantom", "v4-in-v6-slot", "v4mapped-in-v6-slot"}
 	secrets := [][]byte{vfix.Secret(80), vfix.Secret(81)}
-	libvers := []uint32{4}
+	libvers := []uint32{0, 2, 4} // 0: legacy selection; 2: newest client that never randomises its port; 4: current
 	if a.Thorough() {
 		// thorough: 12 secrets (phantoms in every configured subnet, many ports), every client library version
 		// (each selects phantom and port differently), port overrides at the edges of the 16-bit range
